@@ -38,6 +38,7 @@ var (
 	ErrRowIDsExhausted   = errors.New("row ids exhausted")
 	ErrFieldAmbiguous    = errors.New("field is ambiguous")
 	ErrFieldNotFound     = errors.New("field not found")
+	ErrFieldRepeated     = errors.New("field named more than once")
 	ErrTableAlreadyExist = errors.New("table already exists")
 	ErrTableNotExist     = errors.New("table does not exist")
 	ErrTypeMismatch      = errors.New("types do not match")
@@ -454,6 +455,16 @@ func (rs *RelationService) createTable(r *Relation, tableName string) error {
 	_, err := rs.getRelationFileOffset(tableName)
 	if err != ErrTableNotExist {
 		return ErrTableAlreadyExist
+	}
+
+	// a row is a map from field name to value: two fields of one name would
+	// share a single value
+	seen := make(map[string]bool, len(r.Fields))
+	for _, fd := range r.Fields {
+		if seen[fd.Name] {
+			return fmt.Errorf("%w: %s", ErrFieldRepeated, fd.Name)
+		}
+		seen[fd.Name] = true
 	}
 
 	// reject catalog rows that do not fit before anything is allocated or
